@@ -28,9 +28,10 @@ Record cfg := mk_cfg {
   c_setmap : bool;       (* read_set_begin / read_map_begin return an error instead of unimplemented!() *)
   c_double : bool;       (* read_double tests that 8 bytes remain *)
   c_vlq_shift : bool;    (* read_vlq stops at shift >= 64 *)
-  c_fid_add : bool;      (* read_field_begin adds the field delta without overflow panic *)
+  c_fid_add : bool;      (* read_field_begin adds the field delta with checked_add (overflow -> error) *)
   c_list_len : bool }.   (* read_list_set_begin rejects a count larger than the remaining input *)
 
+(* the source BEFORE the repairs 142552dbd (loader.rs) and 58ae48eb3 (thrift.rs): no check at all *)
 Definition cfg_source_now : cfg := mk_cfg false false false false false false.
 Definition cfg_patched : cfg := mk_cfg true true true true true true.
 Definition all_checked (c : cfg) : bool :=
@@ -211,7 +212,7 @@ Definition fields_step (c : cfg) (d : nat) (last : Z) (s : st) : tout st :=
       else
         '(last', r') <-- (if negb (delta =? 0) then
                             let nl := (last + Z.of_N delta)%Z in
-                            if (32767 <? nl)%Z then (if c_fid_add c then TOk ((nl - 65536)%Z, r) else TPanic site_fid_add)
+                            if (32767 <? nl)%Z then (if c_fid_add c then TErr else TPanic site_fid_add)   (* checked_add -> protocol error *)
                             else TOk (nl, r)
                           else '(v, r1) <-- t_read_vlq c r ;;; TOk (as_i16 (t_zigzag v), r1)) ;;;
         skip_value c ty d ((nib =? 1) || (nib =? 2)) (mk_st r' (KFields d last' :: s_tasks s) (s_alloc s))
@@ -269,3 +270,34 @@ Definition current_cfg : option cfg :=
 (* a parquet file made of a footer only: "PAR1" footer len "PAR1" *)
 Definition wrap_footer (meta : list N) : list N :=
   magic_par1 ++ meta ++ le_bytes 4 (lenN meta) ++ magic_par1.
+
+(* ------------------------------------------------------------------ loading an UNCOMPRESSED page body (page_reader.rs) *)
+(* prepare_dictionary / prepare_data_page / prepare_data_page_v2 with codec = None, after read_header:
+     decompressed_page.reset_and_resize(metadata.uncompressed_page_size as usize)?      <- allocation from the header
+     src = chunk.get(chunk_offset .. chunk_offset + metadata.compressed_page_size as usize).ok_or(..)?
+           (v2: chunk_slice: the same expression)          <- `+` unchecked: overflow panic in the dev profile
+     dest.copy_from_slice(src)                              <- `// TODO: Check slice len`: panics unless the two sizes agree
+     chunk_offset += compressed_page_size
+   Both sizes are i32 fields of the thrift PageHeader; `as usize` sign-extends.  chk = true is the proposed repair:
+   negative sizes, sizes that disagree and a body beyond the chunk are errors BEFORE anything is allocated.
+   (Compressed pages: the allocation is uncompressed_page_size <= 2^31-1 whatever the input; not modelled.) *)
+Definition site_copy_len : N := 6.        (* page_reader.rs dest.copy_from_slice(src) with different lengths *)
+Definition site_offset_add : N := 7.      (* page_reader.rs chunk_offset + compressed_page_size as usize overflows *)
+Definition usize_of_i32 (z : Z) : N := Z.to_N (z mod 2 ^ 64).
+
+Record paged := mk_paged {
+  p_out : tout N;           (* the new chunk_offset *)
+  p_alloc : N }.            (* bytes requested for the decompressed page buffer *)
+
+Definition load_page_plain (chk : bool) (chunk_len off : N) (usz csz : Z) : paged :=
+  if chk && ((usz <? 0) || (csz <? 0) || negb (usz =? csz) || (Z.of_N chunk_len <? Z.of_N off + csz))%Z
+  then mk_paged TErr 0 else
+  let u := usize_of_i32 usz in
+  let cs := usize_of_i32 csz in
+  if 2 ^ 63 <=? u then mk_paged TErr 0                          (* resize_uninit: "failed to create memory layout" *)
+  else if 2 ^ 64 <=? off + cs then mk_paged (TPanic site_offset_add) u
+  else if chunk_len <? off + cs then mk_paged TErr u            (* "chunk buffer not large enough to read from" *)
+  else if negb (u =? cs) then mk_paged (TPanic site_copy_len) u
+  else mk_paged (TOk (off + cs)) u.
+
+Definition is_i32 (z : Z) : Prop := (- 2 ^ 31 <= z < 2 ^ 31)%Z.
